@@ -1,5 +1,5 @@
 """C11: compilation is a pure function of sources and options (spec/Purity.tla, PurityMC, PurityTrace)."""
-import re, sys, os, json, random, subprocess, itertools
+import re, sys, os, json, random, subprocess, itertools, time
 sys.path.insert(0, os.path.join(os.path.dirname(os.path.abspath(__file__)), "..", "lib"))
 from vlib import *
 import corpus, c16
@@ -63,6 +63,23 @@ def pvx(rep, args, out_path, what, env=None, timeout=3600):
             pass
         return None
     return r
+
+def unbounded_proof():
+    """spec/PurityProof.tla: NoPanic of the repaired log machine for ANY number of threads and compiles, checked by the TLA+
+    proof system (the invariant is inductive); complements the bounded exploration by TLC"""
+    import subprocess, shutil
+    shutil.rmtree(os.path.join(SPEC, ".tlacache"), ignore_errors=True); shutil.rmtree(os.path.join(SPEC, "PurityProof.tlaps"), ignore_errors=True)
+    t0 = time.time()
+    try:
+        r = subprocess.run(["tlapm", "--threads", "8", "PurityProof.tla"], cwd=SPEC, stdout=subprocess.PIPE, stderr=subprocess.STDOUT, text=True, timeout=1500)
+    except subprocess.TimeoutExpired:
+        raise ToolError("tlapm timed out on PurityProof.tla")
+    finally:
+        shutil.rmtree(os.path.join(SPEC, ".tlacache"), ignore_errors=True); shutil.rmtree(os.path.join(SPEC, "PurityProof.tlaps"), ignore_errors=True)
+    m = re.search(r"All (\d+) obligations proved", r.stdout)
+    if not m:
+        raise ToolError("PurityProof.tla no longer checks: " + r.stdout[-800:])
+    return {"theorem": "Spec => []NoPanicInv for all NC, NI (Repaired = TRUE)", "obligations_proved": int(m.group(1)), "prover": "tlapm 1.6.0-pre (SMT, Zenon, Isabelle, PTL)", "wall_s": round(time.time() - t0, 1)}
 
 def forced_schedules(rep, d, tier):
     """spec -> code: behaviours of the interleaving model (spec/PuritySched.tla = PurityMC + the steps taken), drawn by TLC's
@@ -300,6 +317,7 @@ def check(tier):
     if not all(x > nrej[0] for x in nrej[1:]):
         raise ToolError(f"C11 selftest: removed / corrupted hook events not rejected (rejections good/bad: {nrej})")
     forced = forced_schedules(rep, d, tier)
+    proof = unbounded_proof()
     nsched, nres, acts = nsched_total, nres_total, acts_total
     nruns = (4 + (6 if tier == "quick" else 16) + 2) * len(chunks)
     cov = {"states": info["distinct"] + tinfo.get("distinct", 0), "transitions": info["generated"] + tinfo.get("distinct", 0),
@@ -307,7 +325,7 @@ def check(tier):
            "samples": [{"scenario": "threads+debug-log", "first_events": [e for e in norm if e["event"] == "Sched"][:6]}, {"input": SITES[0][1]}, {"project": PROJECT[0]}],
            "explanation": f"PurityMC: all {info['distinct']} states of 2 compiling threads x 2 compiles + a debugging thread over the lock-protected debug log and the std once-cell (NoPanic, Pure, OnceOnly hold; the unrepaired release is shown to violate NoPanic, so the model is not vacuous); {nruns} recorded process runs ({nsched} hook events numbered under the lock, {nres} results) validated by PurityTrace: the event sequence must be a behaviour of the log machine and every (input, API) must yield one artefact across threads, rounds, histories, fresh processes (new hash seeds), file enumeration orders and a changed PRQL_VERSION_OVERRIDE",
            "hook_events": nsched, "hook_actions": acts, "results": nres, "process_runs": nruns, "chunks": len(chunks), "inputs": len(inputs),
-           "forced_schedules": forced, "unrepaired_model_counterexample_found": True, "selftest": {"removed_event_and_corrupted_counter_rejected": True}}
+           "forced_schedules": forced, "unbounded_proof_of_the_model": proof, "unrepaired_model_counterexample_found": True, "selftest": {"removed_event_and_corrupted_counter_rejected": True}}
     return rep.finish("model_checking", cov,
                       ["hash-seed independence is statistical: each run is a new process (new RandomState keys) and every HashMap created in a process gets new keys; a site with two candidates is missed by n runs with probability 2^-n",
                        "hooks: --cfg prql_verif (debug/log.rs, sql/operators.rs), events are emitted while the write lock on CURRENT_LOG is held and ordered by a counter incremented there"])
